@@ -121,11 +121,14 @@ impl<Body> AmendedRequest<Body> {
     }
 
     pub fn headers(&self) -> impl Iterator<Item = (&HeaderName, &HeaderValue)> {
-        self.headers
-            .iter()
-            .map(|v| (&v.0, &v.1))
-            .chain(self.request.headers().iter())
-            .filter(|v| !self.unset.iter().any(|x| x == v.0))
+        // The unset list only suppresses headers inherited from the original request,
+        // never the ones the caller added to this flow.
+        self.headers.iter().map(|v| (&v.0, &v.1)).chain(
+            self.request
+                .headers()
+                .iter()
+                .filter(|v| !self.unset.iter().any(|x| x == v.0)),
+        )
     }
 
     fn headers_get_all(&self, key: &'static str) -> impl Iterator<Item = &HeaderValue> {
